@@ -21,7 +21,7 @@ Section Pool.
   Definition pool_ids (n : node) : list string := map t_id (elems (n_pool n)).
 
   (* go: transactions_pool.go:150-188 addTransaction *)
-  Definition admit (n : node) (t : tx) : res err node :=
+  Definition pool_add (n : node) (t : tx) : res err node :=
     let c := n_c n in
     let last_ts := last_block_ts (chain c) in
     if (last_ts =? 0)%Z then Err EEmptyChain
@@ -32,7 +32,7 @@ Section Pool.
       else if mem_str (t_id t) (pool_ids n) then Err EInPool
       else if negb (verify_sigs t) then Err ESig
       else
-        match update_utxos (ur c) (last_block_txs (chain c)) next with
+        match update_utxos (ur c) (last_block_txs (chain c)) last_ts with
         | Err e => Err e
         | Ok u1 =>
           match update_utxos u1 (elems (n_pool n)) next with
@@ -40,7 +40,13 @@ Section Pool.
           | Ok u2 =>
             match calc_fee (s_fee S) u2 t next with
             | Err e => Err e
-            | Ok _ => Ok (mkNode c (sl_app (n_pool n) t))
+            | Ok _ =>
+              (* the candidate is applied to the working copy too (double references,
+                 two yielding outputs for one address, duplicate ids are refused here) *)
+              match update_utxos u2 [t] next with
+              | Err e => Err e
+              | Ok _ => Ok (mkNode c (sl_app (n_pool n) t))
+              end
             end
           end
         end.
@@ -91,7 +97,7 @@ Section Pool.
     if negb genesis && (last_ts =? ts)%Z then (n, Refused ESameTick)
     else if negb genesis && (next <? ts)%Z then (n, Refused EMissedTick)
     else
-      match update_utxos (ur c) (last_block_txs (chain c)) next with
+      match update_utxos (ur c) (last_block_txs (chain c)) last_ts with
       | Err e => (n, Refused e)
       | Ok u0 =>
         let shuffled := permute perm (elems (n_pool n)) in
